@@ -262,7 +262,7 @@ fn tick_exec(scn: &C19Scn, t: &Tick) -> Exec {
             decoy.clone()
         }
     };
-    Exec { argv, stdin: StdinSpec::Tty, env: t.env.clone(), clock, io: t.io.clone() }
+    Exec { argv, stdin: StdinSpec::Tty, env: t.env.clone(), clock, io: t.io.clone(), stdout_tty: false }
 }
 
 /// The instants the run may have used as "now" (a sound envelope when the
